@@ -55,10 +55,17 @@ fn dry_variant(spec: &FxSpec) -> Option<(FxSpec, bool)> {
 /// How much an effect amplifies its own f32 rounding noise internally: the EQ mixes its state
 /// variables with coefficients up to 10^(|gain|/20), a resonant filter has gain 1/k at the
 /// corner. The linearity tolerance is scaled by this factor (1 for everything else).
+fn nyquist_factor(f: f64, sr: u32) -> f32 {
+	let rel = (f / sr as f64).clamp(0.0001, 0.5);
+	(1.0 + 0.02 / (0.5 - rel + 1e-4)) as f32
+}
+
 pub fn conditioning(spec: &FxSpec, n: usize, sr: u32) -> f32 {
 	match spec {
-		FxSpec::Eq { gain_db, .. } => 10f32.powf(gain_db.abs() / 20.0),
-		FxSpec::Filter { resonance, .. } => (1.0 / (2.0 - 1.9 * resonance.clamp(0.0, 1.0))) as f32 + 1.0,
+		// (a corner at the Nyquist frequency puts the design's g = tan(pi f / rate) at 1e16: the
+		// recursion is then only marginally stable and its rounding errors add up over a long run)
+		FxSpec::Eq { gain_db, frequency, .. } => 10f32.powf(gain_db.abs() / 20.0) * nyquist_factor(*frequency, sr),
+		FxSpec::Filter { resonance, cutoff, .. } => ((1.0 / (2.0 - 1.9 * resonance.clamp(0.0, 1.0))) as f32 + 1.0) * nyquist_factor(*cutoff, sr),
 		FxSpec::Delay { time_s, feedback_db, inner, .. } => {
 			// a feedback loop sums its own rounding errors: 1 / (1 - loop gain) of them, and when the
 			// loop gain is 1 (0 dB feedback is allowed: the line then integrates) one per round trip
@@ -103,7 +110,7 @@ impl Property for C13 {
 	fn assumptions(&self) -> Vec<String> {
 		vec![
 			"effects are driven directly through EffectBuilder::build / Effect::{init,on_start_processing,process} with a MockInfoBuilder Info, slices never longer than the internal buffer size (what every track does)".into(),
-			"equality is f32 == (so -0.0 == 0.0); linearity tolerance 1e-4 * max(1, peak of the signals involved) * internal gain of the effect (10^(|EQ gain|/20), 1 + 1/k for a resonant filter, min(1/(1 - loop gain), round trips) for a delay's feedback loop); recursive-effect partition tolerance 1e-6 absolute".into(),
+			"equality is f32 == (so -0.0 == 0.0); linearity tolerance 1e-4 * max(1, peak of the signals involved) * internal gain of the effect (10^(|EQ gain|/20), 1 + 1/k for a resonant filter, min(1/(1 - loop gain), round trips) for a delay's feedback loop, 1 + 0.02/(0.5 - f/rate) for a corner close to Nyquist); recursive-effect partition tolerance 1e-6 absolute".into(),
 			"effects placed inside a delay's feedback loop are restricted to a provable loop gain <= 0.95 (a loop with gain above 1 diverges by design); see counters".into(),
 		]
 	}
